@@ -150,6 +150,14 @@ def _evaluate(ctx, cases, batches):
         got = _res(o["ok"], doc, extra)
         if want != got:
             ctx.violation("evaluation under renamed identifiers must equal evaluation under the default identifiers", inp, got, want)
+        if ctx.rng.random() < (0.15 if ctx.tier == "quick" else 0.5) and "~" not in text:
+            # every entry point of the custom environment (findall and the async twins compare the union /
+            # intersection spellings themselves)
+            ref = core.outcome(lambda: [[m.path, core.canon(m.obj)] for m in o["ok"].finditer(doc, filter_context=extra)])
+            if "ok" in ref:
+                ctx.count("entry-points")
+                qeval.compare_entry_points(ctx, ctext, o["ok"], doc, extra, ref["ok"],
+                                           "under renamed identifiers every entry point of the environment must give the matches of finditer", inp, env=env)
         s = core.outcome(lambda: str(o["ok"]))
         if "err" in s:
             ctx.violation("string form failed", inp, s["err"], "text")
